@@ -81,6 +81,33 @@ func (x *Exec) ndCall(fr *frame, fn *ssa.Function, args []Value) Value {
 		return x.M.Mem.AllocSym(n, nm).Ptr()
 	case "nd_try":
 		return x.ndTry(fr, args[0])
+	case "nd_hash":
+		// an arbitrary but fixed hash function: concrete keys hash by a fixed
+		// mixer, symbolic keys get a fresh value constrained to be functional
+		k := args[0].(*smt.Term)
+		if k.IsConst() {
+			h := c64(ndMix(k.Uint()))
+			known := false
+			for _, p := range x.hashPairs {
+				if p[0] == k {
+					known = true
+				} else if !p[0].IsConst() {
+					// an earlier symbolic key that equals this one must have hashed alike
+					x.M.Assume(smt.Implies(smt.Eq(p[0], k), smt.Eq(p[1], h)))
+				}
+			}
+			if !known {
+				x.hashPairs = append(x.hashPairs, [2]*smt.Term{k, h})
+			}
+			return h
+		}
+		h := x.M.Fresh("hash", 64)
+		for _, p := range x.hashPairs {
+			x.M.Assume(smt.Implies(smt.Eq(k, p[0]), smt.Eq(h, p[1])))
+		}
+		x.hashPairs = append(x.hashPairs, [2]*smt.Term{k, h})
+		x.M.Derived = append(x.M.Derived, core.DerivedEntry{Pattern: "hashof:%d", Key: k, Val: h})
+		return h
 	case "nd_go":
 		if x.sched == nil {
 			x.sched = newScheduler(x)
@@ -155,3 +182,13 @@ func (x *Exec) ndTry(fr *frame, f Value) (res Value) {
 }
 
 var _ = core.Zero
+
+// ndMix is the fixed hash of concrete keys (also used by the native prelude).
+func ndMix(k uint64) uint64 {
+	k ^= k >> 33
+	k *= 0xff51afd7ed558ccd
+	k ^= k >> 33
+	k *= 0xc4ceb9fe1a85ec53
+	k ^= k >> 33
+	return k
+}
